@@ -16,10 +16,16 @@
     sync servers <ids ;-separated>          sync traits none | s:<str> | j:<fragment>
     sched <string>                          utils.reboot_schedule
 
+    zk srv <name> <bytes> <parsed dict | ~>   a node of /servers        zk srvdel <name>     zk noservers
+    zk presence <names | ~>                   children of /server.presence (~ = directory missing)
+    zk aux pl|v|vh <names>                    which servers have /placement, /version, /version.history nodes
+    zk bucket <name> <bytes>     zk cell <names>
+    sync topo <id|partition fragment|pod|rack ;...> <deletion order>        sync_server_topology
+
   Answer of a directory sync: `x=<deleted names> w=<puts, in order> d=<name:content of the directory>`.
 -/
 import TmVerif.Base.Proto
-import TmVerif.Reserve.CellSync
+import TmVerif.Reserve.CellSyncTopo
 open TmVerif TmVerif.Proto TmVerif.CellSync
 
 structure DSt where
@@ -28,6 +34,7 @@ structure DSt where
   alloc : AllocZk := ⟨none, [], 0⟩
   servers : Option Str := none
   traits : Option Str := none
+  topo : TopoZk := ⟨[], [], none, none, [], [], []⟩
 
 def decodeStr (s : String) : Option Str :=
   if s = "-" then some [] else (s.splitOn ".").mapM (fun t => t.toNat?.map Char.ofNat)
@@ -112,6 +119,24 @@ def getDir (s : DSt) (w : String) : Option (Option Dir) :=
 def setDir (s : DSt) (w : String) (d : Option Dir) : DSt :=
   if w = "coll" then { s with coll := d } else { s with parts := d }
 
+def decodeSrvIn (s : String) : Option SrvIn :=
+  match s.splitOn "|" with
+  | [i, p, pod, rack] => do
+    let i ← decodeStr i; let p ← decodeStr p; let pod ← pod.toNat?; let rack ← rack.toNat?
+    pure { id := i, partition := p, pod := pod, rack := rack }
+  | _ => none
+
+def showNames (l : List Str) : String := showCsv (l.map encodeStr)
+
+def showTopo (z : TopoZk) : String :=
+  let srv := match z.servers with
+    | none => "missing"
+    | some d => showCsv (d.map (fun (e : Str × SrvNode) => encodeStr e.1 ++ ":" ++ encodeStr e.2.bytes))
+  s!"b={showDir z.buckets} c={showNames z.cell} s={srv} pl={showNames z.placement} v={showNames z.version} vh={showNames z.versionHist}"
+
+def showOutcome : TopoOutcome → String
+  | .done => "done" | .noNode => "nonode" | .badOrder => "badorder"
+
 def stepLine (s : DSt) (ws : List String) : DSt × String :=
   match ws with
   | ["zk", "set", w, n, c] =>
@@ -170,6 +195,55 @@ def stepLine (s : DSt) (ws : List String) : DSt × String :=
       let r := syncTraits s.traits d
       ({ s with traits := r.2 }, s!"w={showCsv (r.1.map showWrite)} n={showNode r.2}")
     | none => (s, "bad-op")
+  | ["zk", "srv", n, b, p] =>
+    let pd : Option (Option Dict) := if p = "~" then some none else (decodeDict p).map some
+    match decodeStr n, decodeStr b, pd with
+    | some n, some b, some pd =>
+      let t := { s.topo with servers := some (srvSet (s.topo.servers.getD []) n ⟨b, pd⟩) }
+      ({ s with topo := t }, showTopo t)
+    | _, _, _ => (s, "bad-op")
+  | ["zk", "srvdel", n] =>
+    match decodeStr n with
+    | some n =>
+      let t := { s.topo with servers := s.topo.servers.map (fun d => d.filter (fun e => decide (e.1 ≠ n))) }
+      ({ s with topo := t }, showTopo t)
+    | none => (s, "bad-op")
+  | ["zk", "noservers"] =>
+    let t := { s.topo with servers := none }
+    ({ s with topo := t }, showTopo t)
+  | ["zk", "presence", l] =>
+    let v : Option (Option (List Str)) := if l = "~" then some none else (decodeMany decodeStr l).map some
+    match v with
+    | some v => ({ s with topo := { s.topo with presence := v } }, "ok")
+    | none => (s, "bad-op")
+  | ["zk", "aux", w, l] =>
+    match decodeMany decodeStr l with
+    | some l =>
+      let t := if w = "pl" then { s.topo with placement := l } else if w = "v" then { s.topo with version := l }
+        else { s.topo with versionHist := l }
+      ({ s with topo := t }, showTopo t)
+    | none => (s, "bad-op")
+  | ["zk", "bucket", n, b] =>
+    match decodeStr n, decodeStr b with
+    | some n, some b =>
+      let d0 := s.topo.buckets
+      let d1 : Dir := if (d0.get n).isSome then d0.setAll n b else d0 ++ [(n, b)]
+      let t := { s.topo with buckets := d1 }
+      ({ s with topo := t }, showTopo t)
+    | _, _ => (s, "bad-op")
+  | ["zk", "cell", l] =>
+    match decodeMany decodeStr l with
+    | some l => let t := { s.topo with cell := l }; ({ s with topo := t }, showTopo t)
+    | none => (s, "bad-op")
+  | ["sync", "topo", srvs, order] =>
+    match decodeMany decodeSrvIn srvs, decodeMany decodeStr order with
+    | some srvs, some order =>
+      let r := syncServerTopology s.topo s.alloc.seq srvs order
+      let st := r.1
+      let al := { s.alloc with seq := st.seq, events := s.alloc.events ++ st.evs.map (·.1) }
+      ({ s with topo := st.zk, alloc := al },
+       s!"o={showOutcome r.2} log={showCsv (st.log.map encodeStr)} ev={showCsv (st.evs.map (fun e => encodeStr e.1 ++ ":" ++ encodeStr e.2))} {showTopo st.zk}")
+    | _, _ => (s, "bad-op")
   | ["sched", v] =>
     match decodeStr v with
     | some v =>
